@@ -4,6 +4,7 @@ package c01
 import (
 	"context"
 	"errors"
+	"io"
 	"math"
 
 	jsonrpc "github.com/filecoin-project/go-jsonrpc"
@@ -429,4 +430,50 @@ func HarnessShapes() {
 		}
 	}
 	verif.Reach("shape-done")
+}
+
+type flakyTransport struct {
+	do    func(ctx context.Context, body []byte) (io.ReadCloser, error)
+	failN int
+}
+
+// HarnessSequence: calls are independent of each other: a call that failed on the
+// client side (transport error / undecodable result) leaves no trace in later
+// calls of the same generated function, and vice versa.
+func HarnessSequence() {
+	h := &H{}
+	srv := jsonrpc.NewServer()
+	srv.Register("NS", h)
+	var c C
+	failFirst := verif.Choice("first_call", 3) // 0 ok, 1 transport error, 2 handler error
+	n := 0
+	inner := hx.CustomDo(srv)
+	closer, err := jsonrpc.NewCustomClient("NS", []interface{}{&c}, func(ctx context.Context, body []byte) (io.ReadCloser, error) {
+		n++
+		if n == 1 && failFirst == 1 {
+			return nil, errors.New("transport down")
+		}
+		return inner(ctx, body)
+	})
+	verif.Assert(err == nil, "client-created")
+	defer closer()
+	a1, a2 := verif.Int("a1"), verif.Int("a2")
+	h.retS = "r1"
+	h.fail = failFirst == 2
+	v1, e1 := c.Two(context.Background(), a1, "x")
+	verif.Assert((e1 != nil) == (failFirst != 0), "first-call-outcome")
+	if failFirst == 0 {
+		verif.Assert(v1 == "r1", "first-call-result")
+	}
+	// second call of the same function: healthy
+	h.fail = false
+	h.retS = "r2"
+	v2, e2 := c.Two(context.Background(), a2, "y")
+	verif.Assert(e2 == nil, "later-call-unaffected-by-earlier-failure")
+	verif.Assert(v2 == "r2" && h.gotI == a2 && h.gotS == "y", "later-call-own-arguments-and-result")
+	// and a third one that fails again
+	h.fail = true
+	v3, e3 := c.Two(context.Background(), a1, "z")
+	verif.Assert(e3 != nil && v3 == "", "later-failure-still-reported")
+	verif.Reach("sequence-done")
 }
